@@ -101,6 +101,8 @@ func Main(args []string) int {
 		return cmdSelftest(args[1:])
 	case "selftest-worker":
 		return cmdSelftestWorker(args[1:])
+	case "replica":
+		return cmdReplica(args[1:])
 	case "list":
 		ids := make([]string, 0)
 		for id := range registry {
